@@ -149,6 +149,36 @@ def pieces(v, fn, hooks=None, args=None):
     return out, eff
 
 
+def opaque_writers(v, ps, root=None):
+    """pieces through which memory may be written without the analysis seeing the statement: calls of functions that are not defined
+    in the library and take a pointer (rooted at `root`, or any pointer when root is None), indirect calls, unrecognised constructs,
+    loops without a closed form, inline asm that was not classified.  A rule that is about to conclude "this element is never
+    written" must first see that this list is empty; otherwise the honest answer is undecided."""
+    out = []
+    for p in ps:
+        k = p["kind"]
+        if k in ("unknown", "while", "asm"):
+            out.append(p)
+        elif k == "call":
+            x = p.get("eff") or {}
+            if x.get("noreturn"):
+                continue
+            if x.get("usr") in v.defs:
+                continue                     # a library function the rule chose not to inline: its own rule decides it
+            for a in [a_ for a_ in (p.get("args") or []) if isinstance(a_, tuple)] + ([x["this"]] if isinstance(x.get("this"), tuple) else []):
+                r_ = sym.root_of(a) if a and a[0] in ("idx", "fld", "addr", "cast", "sym", "var", "new", "obj") else None
+                if a and a[0] in ("addr", "idx", "fld", "var", "sym", "new", "obj") and (root is None or r_ == root):
+                    if a[0] in ("var", "sym") and root is None:
+                        continue
+                    out.append(p)
+                    break
+    return out
+
+
+def show_opaque(ps_):
+    return ", ".join("%s at line %s" % (p.get("name") or p["kind"], p["line"]) for p in ps_[:3])
+
+
 def _unused():
     pass
 
